@@ -29,6 +29,8 @@ FRAGMENTS = ['{', '}', '[', ']', '$', '$$', '\\[', '\\]', '\\(', '\\)', '&', '\\
              '\\begin{yvmremoved}', '\\end{yvmremoved}', '\\begin{yvmequ}', '\\end{yvmequ}', '\\yvmswap',
              '\\yvmtwice{', '\\par', '\\LTadd{', '\\LTskip{', '\\LTalter{a}{', '\\begin {verbatim}',
              '\\begin\n{verbatim}',
+             '\\documentclass[draft]{article}\\usepackage[draft=false]{hyperref}', '\\usepackage[final,final=true]{graphicx}',
+             '\\usepackage[german]{babel}\\usepackage[german,german=x]{babel}', '\\documentclass[a=b,a]{book}\\usepackage{xcolor}',
              # long repetitions: counters, label generators, rotating collections and nesting stacks must not run out
              '\\begin{enumerate}\\begin{enumerate}' + '\\item x ' * 30, '\\begin{enumerate}' * 7 + '\\item a',
              '\\begin{itemize}' + '\\item ' * 60, '$x$ ' * 15, '\\[a\\] ' * 10, '\\footnote{a}' * 12, '{' * 40 + 'x' + '}' * 40,
@@ -63,6 +65,7 @@ ARG_A = ['{}', '{}', '{x}', '{description}', '{name,description}', '{text,first}
 ARG_O = ['', '', '[]', '[x]', '[99999999999]', '[12]', '[0]', '[description]', '[-3]', '[ ]', '[1]', '[german]', '[a=b,c]', '[{]}]', '[', '[\\foo]', '[a=}{]', '[a={b},c=}{d]',
          '[a=}]', '[=]', '[,=,]', '[a={}]',
          # digits that are no decimal digits, non-ASCII decimal digits, blanks around a number
+         '[a,a=b]', '[draft,draft=false]', '[final=true,final]',
          '[\u00b2]', '[\u2460]', '[1\u00b3]', '[\u0663]', '[\uff12]', '[ 2 ]', '[\u2155]', '[\u2082]']
 
 
